@@ -70,6 +70,34 @@ func init() {
 		list, idx := serverListWithIndices("", server)
 		return renderList(list, idx, bit)
 	}
+	// c18.filter <entries, comma separated> <regex> : a plugged-in discovery module supplies the entries, the
+	// server argument is the /regex/ filter.  After the list: for every entry whether Go's regexp matches it.
+	ops["c18.filter"] = func(a []string) string {
+		var entries []string
+		if s := string(unhex(a[0])); s != "" {
+			entries = strings.Split(s, ",")
+		}
+		reStr := string(unhex(a[1]))
+		re, err := regexp.Compile(reStr)
+		if err != nil {
+			return "regex-error"
+		}
+		discovery.VerifList = entries
+		list, idx := serverListWithIndices("verif", "/"+reStr+"/")
+		var bits strings.Builder
+		for _, e := range entries {
+			if re.MatchString(e) {
+				bits.WriteByte('1')
+			} else {
+				bits.WriteByte('0')
+			}
+		}
+		b := bits.String()
+		if b == "" {
+			b = "-"
+		}
+		return renderList(list, idx, b)
+	}
 	// c18.file <content> : server file
 	ops["c18.file"] = func(a []string) string {
 		path := tmpFile("servers.txt", unhex(a[0]))
